@@ -41,7 +41,7 @@ pub fn property(id: &str) -> Option<PropertySpec> {
             id: "C04",
             rule: hist::C04_RULE,
             assumptions: vec![ORACLE, SETUP, "stack depths are private and observed only through unwinding"],
-            checks: vec![Box::new(hist::C04Histories), Box::new(hist::C04EngineMoves)],
+            checks: vec![Box::new(hist::C04Histories), Box::new(hist::C04EngineMoves), Box::new(hist::C04LongGames)],
         },
         "C05" => PropertySpec {
             id: "C05",
@@ -71,7 +71,7 @@ pub fn property(id: &str) -> Option<PropertySpec> {
             id: "C06",
             rule: pos::C06_RULE,
             assumptions: vec![ORACLE, SETUP, CAP],
-            checks: vec![Box::new(pos::C06Positions), Box::new(pos::C06Walks)],
+            checks: pos::c06_checks(),
         },
         "C07" => PropertySpec {
             id: "C07",
